@@ -121,19 +121,19 @@ func verifSpecHandledSelect(current Identifier, qualified bool, qualifier Identi
 //@ specfn scanPos(d, p, to) = ite(ufInt("lex.tok", d, p) == to || ufInt("lex.tok", d, p) == tkEOF, p, scanPos(d, ufInt("lex.end", d, p), to))
 
 //@ loop parser.untilToken #1
-//@   invariant tokcur(l, t)
+//@   invariant tok-current: tokcur(l, t)
 //@   invariant scan: scanPos(l.data, old(l.p), to) == ite(t == to || t == tkEOF, l.$ts, scanPos(l.data, l.p, to))
 //@   invariant last: t == to || t == tkEOF ==> t == ufInt("lex.tok", l.data, l.$ts) && l.p == ufInt("lex.end", l.data, l.$ts)
-//@   invariant inv(l) && l.data == old(l.data) && l.m == old(l.m) && l.p >= old(l.p) && l.pe == old(l.pe)
+//@   invariant lexer-state: inv(l) && l.data == old(l.data) && l.m == old(l.m) && l.p >= old(l.p) && l.pe == old(l.pe)
 //@   decreases l.pe - l.p, ite(t == tkEOF, 0, 1)
 
 //@ func parser.untilToken [C09, C06]
-//@   ensures tokcur(l, result)
+//@   ensures tok-current: tokcur(l, result)
 //@   requires l != nil && inv(l) && to != tkInvalid
 // it stops behind the first `to` token of the statement (or at its end), wherever that is
 //@   ensures scanned: l.$ts == scanPos(old(l.data), old(l.p), to) && result == ufInt("lex.tok", old(l.data), l.$ts) && l.p == ufInt("lex.end", old(l.data), l.$ts) [C09]
-//@   ensures inv(l) && l.data == old(l.data) && l.m == old(l.m) && l.p >= old(l.p) && l.pe == old(l.pe)
-//@   ensures result == to || result == tkEOF
+//@   ensures lexer-state: inv(l) && l.data == old(l.data) && l.m == old(l.m) && l.p >= old(l.p) && l.pe == old(l.pe)
+//@   ensures stops-at: result == to || result == tkEOF
 //@   modifies l.p, l.id, l.$ts
 
 // parseQualifiedIdentifier: "ks.table" or "table", read at the identifier the lexer stands behind
